@@ -5,6 +5,7 @@
  * usage: h_one <cfgpath> <resultfile> [uid] [ncalls] [devlogpath|-] [message length -> env M] [fill char]
  * The executable contains snoopy's objects (production wrapper); librec.so is the real-exec seam. */
 #include <errno.h>
+#include <sys/resource.h>
 #include <fcntl.h>
 #include <stdio.h>
 #include <stdlib.h>
@@ -83,6 +84,7 @@ int main(int argc, char **argv) {
           const char *fds = strchr(st, ':'); fds = fds ? fds + 1 : "1";
           for (const char *q = fds; *q; q++) {
               int target = *q - '0', p[2];
+              if (!strncmp(st, "file4096", 8)) { char z[4096]; memset(z, 'z', sizeof z); int f = open("stdfile", O_WRONLY | O_CREAT | O_TRUNC | O_APPEND, 0644); if (f < 0 || write(f, z, sizeof z) != (ssize_t)sizeof z) return 3; dup2(f, target); close(f); continue; }
               if (!strncmp(st, "sockgone", 8)) { if (socketpair(AF_UNIX, SOCK_STREAM, 0, p)) return 3; close(p[0]); dup2(p[1], target); close(p[1]); continue; }
               if (pipe(p)) return 3;
               if (!strncmp(st, "gone", 4)) close(p[0]);
@@ -99,10 +101,13 @@ int main(int argc, char **argv) {
 #ifdef VERIF_HEAPTRACK
         long l0 = ht_live; ht_on = 1;
 #endif
+        /* the caller's file-size limit (ulimit -f): a log file that has reached it makes every append raise SIGXFSZ unless the writer cares */
+        struct rlimit rl0; int have_rl = 0; if (getenv("VERIF_RLIMIT_FSIZE")) { getrlimit(RLIMIT_FSIZE, &rl0); struct rlimit rl = rl0; rl.rlim_cur = (rlim_t)atol(getenv("VERIF_RLIMIT_FSIZE")); setrlimit(RLIMIT_FSIZE, &rl); have_rl = 1; }
         if (write(-1, "VERIF:BEGIN", 11) < 0) {}
         errno = getenv("VERIF_AMBIENT_ERRNO") ? atoi(getenv("VERIF_AMBIENT_ERRNO")) : 0;     /* what the caller's earlier activity left in errno */
         int r = execve("/some/dir/prog", av, ev); int e = errno;
         if (write(-1, "VERIF:END", 9) < 0) {}
+        if (have_rl) setrlimit(RLIMIT_FSIZE, &rl0);
 #ifdef VERIF_HEAPTRACK
         ht_on = 0; if (i < 8) heapd[i] = ht_live - l0;
 #endif
